@@ -9,7 +9,7 @@ FN = "parse::forward_to_next_storage_header"
 
 def run(ctx):
     F, R = ctx.facts, ctx.report
-    R.explanation = "CONST DLT_PATTERN; the finder is built from that constant and searched with memmem::Finder::find (first occurrence)."
+    R.explanation = "CONST DLT_PATTERN; the finder is built from that constant and searched with memmem::Finder::find (first occurrence); WIRE-PH: the storage-header parser reads its fields relative to the found pattern, reports the bytes in front of it, and refuses only while fewer than 16 bytes follow the pattern."
     R.not_decided = ["memchr's search correctness (trusted)"]
     lib_const.check(ctx, names={"parse::DLT_PATTERN", "dlt::STORAGE_HEADER_LENGTH"}, rule="CONST", enums=False)
     b = F.body(FN)
@@ -38,6 +38,8 @@ def run(ctx):
             else:
                 R.violation("FIND", FN + "|" + p, "search primitive %s is not memmem::Finder::find (first occurrence)" % p, file=fl, line=ln, function=FN)
     R.floor("FIND", 2)
+    from rules import lib_wirep
+    lib_wirep.check_storage(ctx, "WIRE-PH")
     try:
         from rules import lib_cons
         lib_cons.check_c06(ctx)
